@@ -39,6 +39,14 @@ Definition cross_ex (m nswp : option nat) (cache : option (list (row * Z))) (fue
           pick_ex (fun _ _ _ _ _ _ => tt) (fun _ _ _ _ _ _ => tt)
           (fun _ _ => 0%Z) (fun _ _ _ => 1%Z) (fun _ _ => 0%Z) (cfg_ex m nswp cache) fuel.
 
+(* the known finding C06/zero-objective-e-only-never-stops in the model: only e is given, the objective is identically
+   zero, accuracy answers its sentinel -1 at every sweep *)
+Definition cross_zero_e_only (fuel : nat) :=
+  cross_m OZ (P := unit) (fun _ => false) (fun _ I => Some (map (fun _ => 0%Z) I)) None tt (fun _ _ => tt) (fun _ _ => tt)
+          (fun _ _ _ _ => tt) pick_ex (fun _ _ _ _ _ _ => tt) (fun _ _ _ _ _ _ => tt)
+          (fun _ _ => 0%Z) (fun _ _ _ => (-1)%Z) (fun _ _ => 0%Z)
+          (mkcfg Y0_ex None (Some 1%Z) None None false false 1 1 5 None) fuel.
+
 (* (stop code, m, m_cache, sweeps, calls) of a finished run *)
 Definition summary (r : result (@st Z unit)) : option (nat * nat * nat * nat * nat) :=
   match r with
